@@ -226,8 +226,8 @@ func resInstances(tier string) []Instance {
 
 func init() {
 	register(&Check{ID: "C18",
-		Rule: "9 call variants (13 thorough) x way of ending {quorum before all replies then the straggler answers, exhaustion, cancel then the nodes answer, deadline with a node that stays silent, node crash + restart, handler error, stream end, the write itself failing (stream dies while the request is blocked in SendMsg on a full window), context already ended before the call, context ending while the request waits in the send buffer behind a blocked sender} x send buffer {0,1}, each call repeated twice on the same manager; after each round (back-off timers fired) the oracle reads the response-router count of every node through an accessor and the live per-call goroutines from the scheduler: zero once every targeted node has answered or its connection failed (one router per round only for a node that never answers), no growth between rounds; all schedules within the deviation bound; an outcome is the instance",
-		Gen:  resInstances,
+		Rule:        "9 call variants (13 thorough) x way of ending {quorum before all replies then the straggler answers, exhaustion, cancel then the nodes answer, deadline with a node that stays silent, node crash + restart, handler error, stream end, the write itself failing (stream dies while the request is blocked in SendMsg on a full window), context already ended before the call, context ending while the request waits in the send buffer behind a blocked sender} x send buffer {0,1}, each call repeated twice on the same manager; after each round (back-off timers fired) the oracle reads the response-router count of every node through an accessor and the live per-call goroutines from the scheduler: zero once every targeted node has answered or its connection failed (one router per round only for a node that never answers), no growth between rounds; all schedules within the deviation bound; an outcome is the instance",
+		Gen:         resInstances,
 		Assumptions: []string{"router counts are read through an accessor added by overlay; goroutines are identified by their spawn site"},
 	})
 }
